@@ -235,8 +235,10 @@ void adapter_exec(Ev *ev)
     } else {
         fam = 3;
         /* auxiliary block: designated region [O, O+R), canary octets in front of and behind it (R > 10: O = 2) */
-        long O = R > 10 ? 2 : 0;
+        /* (R > 20: O = 8.  The counted and the draining call rewind the buffer first: its region then is the first R octets of the block) */
+        long O = R > 20 ? 8 : R > 10 ? 2 : 0;
         R = R % 10;
+        int rewinds = ev_is(ev, "naux") || ev_is(ev, "daux");
         aux = xblock((size_t)(O + R + 2));
         memset(aux, 0xc5, (size_t)(O + R + 2));
         memset(aux + O, 0x5a, (size_t)R);
@@ -267,7 +269,7 @@ void adapter_exec(Ev *ev)
         obs(ev, rc); obs(ev, s.pos);
         {
             int touched_outside = aux[O + R] != 0xc5 || aux[O + R + 1] != 0xc5;
-            for (long i = 0; i < O; i++) if (aux[i] != 0xc5) touched_outside = 1;
+            for (long i = 0; i < O; i++) if (aux[i] != 0xc5 && !(rewinds && i < R)) touched_outside = 1;
             obs(ev, touched_outside);
         }
         for (long i = 0; i < k.n; i++) obs(ev, k.got[i]);
